@@ -2,6 +2,7 @@ package main
 
 import (
 	"bytes"
+	"encoding/binary"
 	"encoding/hex"
 	"errors"
 	"fmt"
@@ -145,7 +146,7 @@ func mutateHeader(r *rand.Rand, enc []byte) ([]byte, string) {
 		i := off + r.IntN(n)
 		e[i] ^= byte(1 << uint(r.IntN(8)))
 	}
-	switch r.IntN(12) {
+	switch r.IntN(17) {
 	case 0:
 		flip(offs["headerMagicOffset"], 2)
 		return e, "magic"
@@ -231,7 +232,7 @@ func genRead(r *rand.Rand) input {
 			body = body[:r.IntN(len(body))]
 		}
 	case 3: // big claim + malformed elsewhere
-		h.BodyLen = 32 << 20
+		h.BodyLen = 2 << 20
 	}
 	enc := wire.EncodeHeader(h.wire())
 	e := enc[:]
@@ -354,8 +355,16 @@ func runRead(in input) vh.Result {
 	)
 	// heap growth across the call; repeated so that unrelated background
 	// allocations cannot be mistaken for a body allocation
+	claimed := uint32(0)
+	if len(stream) >= wire.HeaderSize {
+		claimed = binary.BigEndian.Uint32(stream[wire.VerifHeaderOffsets()["headerBodyLenOffset"]:])
+	}
 	for attempt := 0; attempt < 3; attempt++ {
 		rd = &chunkReader{data: stream, chunks: append([]int(nil), in.Chunks...)}
+		if claimed < bigBody { // nothing body-sized could be allocated on behalf of this header
+			frame, err = wire.ReadFrame(rd, clampInt(in.Max))
+			break
+		}
 		var before, after runtime.MemStats
 		runtime.ReadMemStats(&before)
 		frame, err = wire.ReadFrame(rd, clampInt(in.Max))
@@ -364,8 +373,8 @@ func runRead(in input) vh.Result {
 		if attempt == 0 || g < grew {
 			grew = g
 		}
-		if grew < bigBody {
-			break
+		if grew < bigBody || !isValidation(err) {
+			break // retry only when a body-sized growth is NOT expected
 		}
 	}
 	allocOver := grew >= bigBody
@@ -381,7 +390,7 @@ func runRead(in input) vh.Result {
 		}
 	}
 	return vh.Result{
-		Coq: vh.App("C26Read", vh.Hex(stream), vh.Z(in.Max), res, vh.N(uint64(rd.pos)), vh.B(rd.beyond && isValidation(err)),
+		Coq: vh.App("C26Read", vh.Hex(stream), vh.Z(in.Max), res, vh.N(uint64(rd.pos)), vh.B(rd.beyond),
 			vh.B(allocOver), reenc),
 		Obs:   map[string]any{"res": res, "consumed": rd.pos, "calls": rd.calls, "max_asked": rd.maxAsked, "heap_grew": grew},
 		Class: "read:" + class,
